@@ -365,9 +365,9 @@ def minimal_m_separator(
     number of vertices :math:`|V|`.
 
     This implementation differs from the specification of FINDMINSEP in [1]_ in that all
-    nodes in ``i`` are removed from the anterior graph :math:`G'`, in between lines 3 and 4.
-    This change was deemed necessary because otherwise the TESTSEP call in line 7 would fail
-    even if the union of ``z`` and ``i`` was a valid i-minimal m-separating set.
+    nodes in ``i`` are removed from the moralized anterior graph, in between lines 3 and 4,
+    and the TESTSEP call in line 7 is made on the anterior graph :math:`G'` with the union
+    of ``z`` and ``i``, which is the set that is returned.
 
     Parameters
     ----------
@@ -425,8 +425,6 @@ def minimal_m_separator(
     )
     for node in i:
         aug_G_p.remove_node(node)
-    for node in i:
-        G_p.remove_node(node)
 
     z_prime = r.intersection(
         _anterior(G_copy, {x, y}, directed_edge_name, undirected_edge_name)
@@ -438,12 +436,15 @@ def minimal_m_separator(
     z_dprime = _bfs_with_marks(aug_G_p, x, z_prime)
     z = _bfs_with_marks(aug_G_p, y, z_dprime)
 
+    # the nodes in i stay in G_p and are conditioned on: a member of i may be a collider
+    # (or a descendant of one) between x and y, which removing it from G_p would hide
+    z = z.union(i)
     if not m_separated(
         G_p, {x}, {y}, z, directed_edge_name, bidirected_edge_name, undirected_edge_name
     ):
         return None
 
-    return z.union(i)
+    return z
 
 
 # XXX: If networkx makes the corresponding function in `d_separation.py` public, then we can
